@@ -11,7 +11,15 @@
  * output, P case (string s, unparse line length n):
  *   P <n> <s> <E> <parse rc> <tokens> <unquote> <unparse> <re-parse rc> <tokens of the re-parse of unparse's output>
  *     <addrlist rc> <taout tokens> <callback addresses: '|'-separated token lists, reversed as the callback sees them, e = empty>
+ *     <addrlist rc and callback addresses of the same token list WITHOUT its comment tokens (first two tokens kept)>
  *     E = X, or the mailboxes a generated RFC 822 list contains (<local hex>/<host hex|~>, comma-separated; - = none)
+ * output, R case (another legal rendering of the tokens the real parser returned for a P case, chosen at random:
+ * white space / folds between tokens, quoted-pairs, nested parentheses in comments), parsed by the real token822_parse:
+ *   R <desc> <text> <parse rc> <tokens>
+ *     desc = '/'-separated items "<ws hex|->~<enc>", the last one "<ws>~$" (trailing white space);
+ *     enc  = s<hh> special | a<hex> atom | q… quoted string | l… literal | c… comment, the body a sequence of
+ *            p<hh> (plain byte) e<hh> (quoted-pair) and, in comments, o = inner "(" and x = inner ")"
+ * stdin case: "R <desc> <text-hex>" (the driver checks that text = render(desc))
  */
 #include "hcommon.h"
 #include <time.h>
@@ -121,12 +129,80 @@ static int cb_record(token822_alloc *ta) {
   return 1;
 }
 
+/* ---- R: another legal rendering of a token list ---- */
+static hbuf r_desc, r_text;
+static void r_hexb(hbuf *b, const unsigned char *p, size_t n) {
+  static const char d[] = "0123456789abcdef";
+  for (size_t i = 0; i < n; i++) { g_c(b, d[p[i] >> 4]); g_c(b, d[p[i] & 15]); }
+}
+static void r_ws(int need) {
+  static const char *w[] = { "", " ", "\t", "\n ", "\r\n\t", "  ", " \n " };
+  uint32_t k = h_below(12);
+  const char *x = k < 7 ? w[k] : "";
+  if (need && !*x) x = " ";
+  if (!*x) g_c(&r_desc, '-'); else r_hexb(&r_desc, (const unsigned char *)x, strlen(x));
+  g_s(&r_text, x);
+}
+static void r_byte(unsigned char c, int must) {
+  int esc = must || h_below(8) == 0;
+  g_c(&r_desc, esc ? 'e' : 'p'); r_hexb(&r_desc, &c, 1);
+  if (esc) g_c(&r_text, '\\');
+  g_c(&r_text, c);
+}
+static void r_render(token822_alloc *ta) {
+  hbuf_reset(&r_desc); hbuf_reset(&r_text);
+  int prev_atom = 0;
+  for (int i = 0; i < ta->len; i++) {
+    struct token822 *t = ta->t + i;
+    int is_atom = t->type == TOKEN822_ATOM;
+    r_ws(prev_atom && is_atom); g_c(&r_desc, '~');
+    prev_atom = is_atom;
+    switch (t->type) {
+      case TOKEN822_ATOM: g_c(&r_desc, 'a'); r_hexb(&r_desc, (unsigned char *)t->s, t->slen); hbuf_add(&r_text, t->s, t->slen); break;
+      case TOKEN822_QUOTE:
+        g_c(&r_desc, 'q'); g_c(&r_text, '"');
+        for (int j = 0; j < t->slen; j++) r_byte(t->s[j], t->s[j] == '"' || t->s[j] == '\\');
+        g_c(&r_text, '"'); break;
+      case TOKEN822_LITERAL:
+        g_c(&r_desc, 'l'); g_c(&r_text, '[');
+        for (int j = 0; j < t->slen; j++) r_byte(t->s[j], t->s[j] == ']' || t->s[j] == '\\');
+        g_c(&r_text, ']'); break;
+      case TOKEN822_COMMENT: {
+        int depth = 0;
+        g_c(&r_desc, 'c'); g_c(&r_text, '(');
+        for (int j = 0; j <= t->slen; j++) {
+          if (depth < 3 && h_below(6) == 0) { g_c(&r_desc, 'o'); g_c(&r_text, '('); depth++; }
+          if (depth && h_below(4) == 0) { g_c(&r_desc, 'x'); g_c(&r_text, ')'); depth--; }
+          if (j < t->slen) r_byte(t->s[j], t->s[j] == '(' || t->s[j] == ')' || t->s[j] == '\\');
+        }
+        while (depth) { g_c(&r_desc, 'x'); g_c(&r_text, ')'); depth--; }
+        g_c(&r_text, ')'); break; }
+      default: {
+        static const char sp[] = "?????<>@,;:.";
+        unsigned char c = (t->type >= 5 && t->type <= 11) ? sp[t->type] : '?';
+        g_c(&r_desc, 's'); r_hexb(&r_desc, &c, 1); g_c(&r_text, c); }
+    }
+    g_c(&r_desc, '/');
+  }
+  r_ws(0); g_s(&r_desc, "~$");
+}
+static void caseR(const unsigned char *desc, size_t dn, const unsigned char *text, size_t tn) {
+  static stralloc s_r = {0}, s_rbuf = {0}; static token822_alloc t_r = {0};
+  sa_set(&s_r, text, tn);
+  int rc = token822_parse(&t_r, &s_r, &s_rbuf);
+  fputs("R ", h_out); fwrite(desc, 1, dn, h_out); fputc(' ', h_out); h_hex(text, tn);
+  fprintf(h_out, " %d ", rc);
+  if (rc == 1) print_toks(&t_r); else fputc('-', h_out);
+  fputc('\n', h_out);
+}
+
+static int want_r;   /* also emit an R case for the tokens of this P case */
 static void caseP(int linelen, const unsigned char *s, size_t n, const char *E) {
   static stralloc s_buf2 = {0}; static token822_alloc t_b = {0};
   sa_set(&s_in, s, n);
   int prc = token822_parse(&t_a, &s_in, &s_buf);
   fprintf(h_out, "P %d ", linelen); h_hex(s, n); fprintf(h_out, " %s %d ", E, prc);
-  if (prc != 1) { fputs("- - - 0 - 0 - -\n", h_out); return; }
+  if (prc != 1) { fputs("- - - 0 - 0 - - 0 -\n", h_out); return; }
   if (token822_unquote(&s_uq, &t_a) != 1) abort();
   if (token822_unparse(&s_up, &t_a, linelen) != 1) abort();
   print_toks(&t_a); fputc(' ', h_out); h_hex((unsigned char *)s_uq.s, s_uq.len); fputc(' ', h_out);
@@ -140,7 +216,17 @@ static void caseP(int linelen, const unsigned char *s, size_t n, const char *E) 
   if (arc == 1) print_toks(&t_out); else fputc('-', h_out);
   fputc(' ', h_out);
   if (gotbuf.n) fwrite(gotbuf.p, 1, gotbuf.n, h_out); else fputc('-', h_out);
+  /* the same tokens without the comments (the first two tokens are the untouched prefix) */
+  static token822_alloc t_nc = {0};
+  if (!token822_ready(&t_nc, t_a.len + 1)) abort();
+  t_nc.len = 0;
+  for (int i = 0; i < t_a.len; i++) if (i < 2 || t_a.t[i].type != TOKEN822_COMMENT) t_nc.t[t_nc.len++] = t_a.t[i];
+  hbuf_reset(&gotbuf); ncb = 0;
+  int arc2 = token822_addrlist(&t_out, &t_addr, &t_nc, cb_record);
+  fprintf(h_out, " %d ", arc2);
+  if (gotbuf.n) fwrite(gotbuf.p, 1, gotbuf.n, h_out); else fputc('-', h_out);
   fputc('\n', h_out);
+  if (want_r) { r_render(&t_a); caseR(r_desc.p, r_desc.n, r_text.p, r_text.n); }
 }
 
 static int unhex(const char *h, unsigned char *o) {
@@ -162,6 +248,7 @@ int main(int argc, char **argv) {
     static char line[300000], f1[300000], f2[300000]; static unsigned char b1[150000], b2[150000];
     while (fgets(line, sizeof line, stdin)) {
       if (line[0] == 'Q' && sscanf(line + 1, "%s %s", f1, f2) == 2) { int n1 = unhex(f1, b1), n2 = unhex(f2, b2); caseQ(b1, n1, b2, n2); }
+      else if (line[0] == 'R' && sscanf(line + 1, "%s %s", f1, f2) == 2) { int n2 = unhex(f2, b2); caseR((unsigned char *)f1, strlen(f1), b2, n2); }
       else if (line[0] == 'P') { static char f3[300000]; int k = sscanf(line + 1, "%s %s %s", f1, f2, f3); if (k >= 2) { int n2 = unhex(f2, b2); caseP(atoi(f1), b2, n2, k == 3 ? f3 : "X"); } }
     }
     fflush(h_out);
@@ -172,6 +259,7 @@ int main(int argc, char **argv) {
   int shard = h_argi(argc, argv, 5, 0), nshards = h_argi(argc, argv, 6, 1);
   unsigned char m[8192];
   uint64_t id = 0;
+  h_seed(seed * 7919ull + 17 * shard + 5);   /* the R renderings of the exhaustive part */
   /* (Q1) every local part over the 17-byte alphabet: all 8 domains up to maxq-2, one of the 8 (rotating) at maxq-1, x.y at maxq */
   for (int len = 0; len <= maxq; len++) {
     uint64_t total = 1; for (int i = 0; i < len; i++) total *= 17;
@@ -191,7 +279,9 @@ int main(int argc, char **argv) {
       uint64_t v = k; int comma = 0;
       m[0] = 'T'; m[1] = ':';
       for (int i = 0; i < len; i++) { m[2 + i] = palpha[v % 15]; if (m[2 + i] == ',') comma = 1; v /= 15; }
+      want_r = (k % 4 == 0);
       caseP(80, m, len + 2, "X");
+      want_r = 0;
       if (comma) caseP(3 + (int)(k % 5), m, len + 2, "X");
       if (len + 1 <= maxp && len <= 3) caseP(80, m + 2, len, "X");   /* without the field name: the first two tokens are the prefix */
     }
@@ -219,13 +309,17 @@ int main(int argc, char **argv) {
       char *mem; size_t mn; FILE *f = open_memstream(&mem, &mn);
       for (int i = 0; i < g.nmb; i++) { if (i) fputc(',', f); g_mbox_print(f, &g.mb[i]); }
       fclose(f);
+      want_r = 1;
       caseP((int[]){80, 80, 0, 20, 40, 1}[h_below(6)], g.text.p, g.text.n, mn ? mem : "-");
+      want_r = 0;
       free(mem);
     } else if (kind == 2) { /* token soup */
       int n = h_below(40);
       m[0] = 'C'; m[1] = 'c'; m[2] = ':';
       for (int i = 0; i < n; i++) m[3 + i] = h_below(5) ? palpha[h_below(15)] : "abc+\t\n\r\x80"[h_below(8)];
+      want_r = 1;
       caseP((int[]){80, 10, 0}[h_below(3)], m, n + 3, "X");
+      want_r = 0;
     } else { /* local parts that look like addresses / routes, various domains */
       static const char *pieces[] = { "a", "b.c", "@", "\"", "\\", " ", ".", "..", "<", ">", ":", "@x:", "+", "\r", "(", ")", ",", ";", "[", "]", "\x80", "\t" };
       int np = 1 + h_below(6), n = 0;
